@@ -156,19 +156,9 @@ def _check_decorator(ck, ctx, dc):
         "works on a copy of the metadata": "metadata = value.metadata.copy()" in src,
     }
     for k, v in facts.items():
-        ck.ob("T-MODE.decorator", f"dialect(): {k}", v, "the dataclass-field model of the checker assumes this behaviour of the decorator "
-              "(re-confirm the model if the decorator was rewritten)", f.loc())
-    g = m.func("simple_ddl_parser.output.table_data:TableData.get_dialect_class")
-    src = ast.unparse(g.node)
-    ck.ob("T-MODE.decorator", "get_dialect_class: sql / no mode -> BaseData", "return BaseData" in src and "output_mode != 'sql'" in src, "", g.loc())
-    ck.ob("T-MODE.decorator", "get_dialect_class: dataclass(type(name, (main_cls, CommonDialectsFieldsMixin), {}))",
-          "(main_cls, CommonDialectsFieldsMixin), {})" in src and "main_cls = dialect_by_name.get(output_mode)" in src and "dataclass(type(" in src,
-          "", g.loc())
-    init = m.func("simple_ddl_parser.output.table_data:TableData.init")
-    src = ast.unparse(init.node)
-    ck.ob("T-MODE.decorator", "TableData.init: main_cls(**pre_load_mods(main_cls, kwargs))",
-          "main_cls = cls.get_dialect_class(kwargs)" in src and "kwargs = cls.pre_load_mods(main_cls, kwargs)" in src and "main_cls(**kwargs)" in src,
-          "", init.loc())
+        if not v:
+            raise AnalysisError(f"the dialect() decorator no longer has the shape the dataclass-field model assumes ({k}); re-confirm the model")
+        ck.ob("T-MODE.decorator", f"dialect(): {k}", True, "as the dataclass-field model assumes", f.loc())
 
 
 def _check_filter(ck, ctx):
@@ -252,27 +242,68 @@ def _same_atoms(a, b):
 
 
 def _check_partition(ck, ctx):
+    """TableData.get_dialect_class / pre_load_mods evaluated abstractly (objabs) for every mode: the class the factory builds has
+    exactly the fields of the dataclass-field model, and the parse result is split exhaustively and disjointly into declared
+    fields and table_properties with values and letter-case folding as documented - however the two functions are written"""
+    from ..objabs import ObjInterp, ClsD
+    from ..pyabs import PyRaise, LexUnknown, NonUniform
     m = ctx.model
-    f = m.func("simple_ddl_parser.output.table_data:TableData.pre_load_mods")
-    src = {ast.unparse(n.targets[0]): ast.unparse(n.value) for n in ast.walk(f.node)
-           if isinstance(n, ast.Assign) and len(n.targets) == 1 and isinstance(n.targets[0], ast.Name)}
-    ck.ob("T-MODE.partition", "cls_fields = the mode class's dataclass fields",
-          src.get("cls_fields") == "{field: value for field, value in main_cls.__dataclass_fields__.items()}", src.get("cls_fields", "?"), f.loc())
-    ck.ob("T-MODE.partition", "declared fields = parse-result keys that are fields of the mode class",
-          src.get("table_main_args") == "{k.lower(): v for k, v in kwargs.items() if k.lower() in cls_fields}", src.get("table_main_args", "?"), f.loc())
-    ck.ob("T-MODE.partition", "table_properties = all remaining keys",
-          src.get("table_properties") == "{k.lower(): v for k, v in kwargs.items() if k.lower() not in table_main_args}",
-          src.get("table_properties", "?") + ": a key that is neither a declared field nor a table property would be lost, or a key would be "
-          "reported twice", f.loc())
-    stores = {ast.unparse(n.targets[0]): ast.unparse(n.value) for n in ast.walk(f.node)
-              if isinstance(n, ast.Assign) and isinstance(n.targets[0], ast.Subscript)}
-    ck.ob("T-MODE.partition", "kwargs['table_properties'] = table_properties", stores.get("kwargs['table_properties']") == "table_properties", str(stores), f.loc())
-    ck.ob("T-MODE.partition", "init_data = declared fields + table properties", stores.get("kwargs['init_data']") == "init_data"
-          and src.get("init_data") == "{}" and "init_data.update(table_main_args)" in ast.unparse(f.node)
-          and "init_data.update(table_properties)" in ast.unparse(f.node), "", f.loc())
-    ret = f.node.body[-1]
-    ck.ob("T-MODE.partition", "returns the declared-field kwargs", isinstance(ret, ast.Return) and ast.unparse(ret.value) == "kwargs"
-          and src.get("kwargs") == "table_main_args", "", f.loc())
+    dc = ctx._get("dcmodel", lambda: DCModel(m))
+    key = ("simple_ddl_parser.output.table_data", "TableData")
+    if key not in m.classes:
+        raise AnalysisError("anchor vanished: class TableData")
+    for mode in sorted(dc.dialect_by_name):
+        it = ObjInterp(m, ctx.grammar.tokens_ns, dc)
+        td = it.clsd(key)
+        try:
+            main_cls = it.call_func(it.lookup(td, "get_dialect_class"), [{"output_mode": mode}], {}, self_obj=td)
+            _n, _mro, fields = dc.mode_class(mode)
+            got_fields = list(main_cls.fields) if isinstance(main_cls, ClsD) and main_cls.fields is not None else None
+            ck.ob("T-MODE.class", f"{mode}: the table class built by get_dialect_class has the modelled fields", got_fields == list(fields),
+                  f"factory gives {got_fields and len(got_fields)} fields, the dataclass-field model {len(fields)}", "TableData.get_dialect_class")
+            if got_fields is None:
+                continue
+            kwargs = {"output_mode": mode, "Unknown_Key": "u1", "STORED_as_x": "u2"}
+            for n, fi in fields.items():
+                if n in ("init_data", "table_properties", "output_mode", "dataset") or "alias" in fi.metadata:
+                    continue
+                kwargs[n if n != "tablespace" else "TABLESPACE"] = f"v:{n}"
+            alias = {fi.metadata["alias"]: n for n, fi in fields.items() if "alias" in fi.metadata}
+            for a in alias:
+                kwargs[a] = f"v:alias:{a}"
+            src = dict(kwargs)
+            res = it.call_func(it.lookup(td, "pre_load_mods"), [main_cls, kwargs], {}, self_obj=td)
+        except PyRaise as pr:
+            ck.ob("T-MODE.partition", f"{mode}: pre_load_mods raises", False, f"{type(pr.exc).__name__}: {pr.exc}", "TableData.pre_load_mods")
+            continue
+        except (LexUnknown, NonUniform) as e:
+            raise AnalysisError(f"TableData.pre_load_mods outside the interpreted subset: {e}")
+        problem = None
+        if not isinstance(res, dict) or not isinstance(res.get("table_properties"), dict) or not isinstance(res.get("init_data"), dict):
+            problem = f"result is not the kwargs dict with table_properties / init_data: {str(res)[:120]}"
+        else:
+            props = res["table_properties"]
+            for k, v in src.items():
+                lk = alias.get(k, k).lower() if k not in alias else alias[k]
+                if mode == "bigquery" and k == "schema":
+                    lk = "dataset"
+                is_field = lk in fields
+                at_top = lk in res and lk not in ("table_properties", "init_data")
+                in_props = lk in props
+                if is_field and not (at_top and not in_props and res[lk] == v):
+                    problem = f"declared field `{lk}` (from key {k!r}) is not passed to the class exactly once with its value"
+                if not is_field and not (in_props and not at_top and props[lk] == v):
+                    problem = f"undeclared key {k!r} is not kept under table_properties[{lk!r}] with its value"
+                if problem:
+                    break
+            if problem is None:
+                extra = [k for k in res if k not in ("table_properties", "init_data") and k not in fields]
+                if extra:
+                    problem = f"keys that are not fields are passed to the class: {extra}"
+            if problem is None and set(res["init_data"]) != (set(res) - {"table_properties", "init_data"}) | set(props):
+                problem = "init_data is not the union of the declared fields and the table properties that were provided"
+        ck.ob("T-MODE.partition", f"{mode}: the parse result is split into declared fields and table_properties, exhaustively and disjointly",
+              problem is None, problem or "every key exactly once, values preserved, keys lower-cased, aliases resolved", "TableData.pre_load_mods")
 
 
 def _mode_specific_functions(ctx, dc):
